@@ -76,6 +76,12 @@ Theorem C03_step_law_complete :
   exists q, In ((i, a), q) (law (select s)).
 Proof. exact (select_law_complete g). Qed.
 
+(* ... listed exactly once, so the mass above IS the probability of (transition i, actor a):
+   P(i, a) = rate_i * weight_a / total, zero for everything else *)
+Theorem C03_step_law_outcomes_listed_once :
+  forall s, SInv g s -> NoDup (map fst (law (select s))).
+Proof. exact (select_law_nodup g). Qed.
+
 (* the total rate is the sum over the specification edges of rate x (sum of the weights of
    the enabled actors) *)
 Theorem C03_total_rate_is_sum_of_enabled :
@@ -143,15 +149,15 @@ Example C03_nonvacuous : C03_example_statement.
 Proof. exact C03_example_proof. Qed.
 
 (* Not proved here (kept visible):
-   - simple_step_law at full strength also needs "each outcome appears once in the list
-     [law (select s)]" to read its mass as THE probability of that outcome; the list is
-     duplicate-free because the items of a _ListDict_ are (ld_inv), which is not restated
-     as a theorem (C03_step_law_sound/complete are therefore the _partial form);
+   - the sum of the masses of [law (select s)] is 1 (it follows from
+     C03_total_rate_is_sum_of_enabled and the three step-law theorems; not written out);
    - whole-run "no EoNError from the loop": per step it is C03_simple_inv_step (every
-     selectable pair fires with [Ok]); the induction over a whole scripted run is not
-     written out.  Crashes of a valid run can only come from [finish]
+     selectable pair fires with [Ok]) and C03_simple_inv_initial; the induction over a whole
+     scripted run is not written out.  Crashes of a valid run can only come from [finish]
      (Simulation_Investigation's constructor: KeyError / IndexError when return_statuses
-     does not cover the statuses, see the harness) or from fuel. *)
+     does not cover the statuses, see the harness) or from fuel;
+   - the law of choose_random's rejection loop is Props/C16.v; here [law] uses its
+     closed form weight/total. *)
 
 Print Assumptions C03_simple_inv_initial.
 Print Assumptions C03_simple_inv_step.
@@ -159,6 +165,7 @@ Print Assumptions C03_candidates_are_enabled_nodes.
 Print Assumptions C03_candidates_are_enabled_pairs.
 Print Assumptions C03_step_law_sound.
 Print Assumptions C03_step_law_complete.
+Print Assumptions C03_step_law_outcomes_listed_once.
 Print Assumptions C03_total_rate_is_sum_of_enabled.
 Print Assumptions C03_counts_track_statuses.
 Print Assumptions C03_malformed_rejected.
